@@ -25,6 +25,10 @@ type Plan struct {
 	Steps    []StepFault  `json:"steps"`
 	Readers  []ReaderPlan `json:"readers"`
 	Writers  []WriterPlan `json:"writers"`
+	// a runtime failure (panic) at the PanicAt-th yield point of site PanicSite
+	// ("" = any site); unlike a kill, deferred functions run. 0 = never
+	PanicAt   int64  `json:"panic_at"`
+	PanicSite string `json:"panic_site"`
 }
 
 // StepFault makes occurrence Occ (1-based) of Site fail or kill.
@@ -79,14 +83,15 @@ func errnoOf(s string) syscall.Errno {
 }
 
 type planController struct {
-	plan    Plan
-	fd      int
-	buf     []byte
-	seq     int64
-	yields  int64
-	events  int64
-	occ     map[string]int
-	openOcc map[string]int
+	plan      Plan
+	fd        int
+	buf       []byte
+	seq       int64
+	yields    int64
+	panicSeen int64
+	events    int64
+	occ       map[string]int
+	openOcc   map[string]int
 }
 
 func planFail(msg string) {
@@ -288,8 +293,15 @@ func (c *planController) StepFile(site string, f *os.File) {
 	c.emit("stepfile", site, occ, "pass", "", true, true)
 }
 
-func (c *planController) Yield(_ string) {
+func (c *planController) Yield(site string) {
 	c.yields++
+	if c.plan.PanicAt > 0 && (c.plan.PanicSite == "" || c.plan.PanicSite == site) {
+		c.panicSeen++
+		if c.panicSeen == c.plan.PanicAt {
+			c.emit("yield", site, int(c.panicSeen), "panic", "", true, true)
+			panic("verifhook: injected runtime failure at yield point " + site)
+		}
+	}
 	if c.plan.Budget > 0 && c.yields&1023 == 0 {
 		c.checkBudget()
 	}
